@@ -26,7 +26,15 @@ def tasks(tier, params):
             has_name = t.wrapper == 'name' or any(k == 'name' for _, k in t.fields) or t.name in ('NSEC', 'SVCB', 'HTTPS', 'IPSECKEY')
             # names inside RDATA are parsed for real (pointers may lead anywhere in the earlier bytes): smaller RDATA bound
             kk = (K - 1 if has_name else K) if tier == 'thorough' else (min(K, 2 + sum(S.WIDTH.get(k, 0) for _, k in t.fields)) if has_name else K)
-            out.append(('rr.' + t.name, {'kind': 'rr', 'code': t.code, 'K': kk, 'concrete_hdr': has_name}))
+            # the smallest RDATA the type can have (fixed fields, root names, empty strings): types whose minimum exceeds the
+            # RDLENGTH range above would otherwise never be accepted, i.e. never re-serialised
+            base = S.BY_NAME['SVCB'] if t.wrapper == 'SVCB' else t
+            m = sum(S.WIDTH.get(k, 0) for _, k in base.fields) + sum(1 for _, k in base.fields if k in ('name', 'cstr')) + (1 if t.wrapper in ('name', 'cstr') else 0)
+            m = {'NSAP': 20, 'IPSECKEY': 3, 'NSEC': 1, 'SVCB': 3, 'HTTPS': 3, 'TXT': 1}.get(t.name, m)
+            extra = [x for x in ((m,) if has_name else (m, m + 1)) if x > kk]
+            if t.name == 'SOA':
+                extra = []        # two fully symbolic names in 22 bytes: the deciding queries time out (SOA is covered by C02/C03 scenario soa_minfo)
+            out.append(('rr.' + t.name, {'kind': 'rr', 'code': t.code, 'K': kk, 'concrete_hdr': has_name, 'extra_lens': extra}))
     out.append(('rr.NULL', {'kind': 'rr', 'code': 10, 'K': K}))
     out.append(('rr.UNKNOWN', {'kind': 'rr', 'code': 65280, 'K': K}))
     out.append(('opt.first', {'kind': 'opt', 'first': True}))
@@ -62,7 +70,7 @@ def run_task(prog, tid, params, tier):
             m[L - 2] = sc_from(uni.z() & 0x80, 'u8')
         msgs.append(m)
     elif kind == 'rr':
-        for rdlen in range(0, params['K'] + 1):
+        for rdlen in list(range(0, params['K'] + 1)) + list(params.get('extra_lens', ())):
             # for name-bearing types the envelope values are concrete: RDATA names may point anywhere into the earlier
             # bytes, and symbolic envelope bytes read as label lengths only multiply paths (they are symbolic for all other types)
             conc = params.get('concrete_hdr')
